@@ -8,7 +8,7 @@ import z3
 from . import src as S
 from .core import *  # noqa: F401,F403
 from .vals import *  # noqa: F401,F403
-from .vals import SEQ, MapSeqP, SetP, VMapSlot, intern_atom
+from .vals import SEQ, ROWS, INTARR, StrSeqP, MapSeqP, SetP, VMapSlot, intern_atom
 
 CHR_ATOM = z3.Function("ChrAtom", z3.IntSort(), z3.IntSort())
 
@@ -438,6 +438,11 @@ class CallMixin:
                 p.len = p.len + 1
             elif isinstance(p, GhostSeqP):
                 p.append(x)
+            elif isinstance(p, StrSeqP) and isinstance(x, VStr):
+                k = fresh("k")
+                p.chars = z3.Store(p.chars, p.len, z3.Lambda([k], x.char(k)))
+                p.lens = z3.Store(p.lens, p.len, x.length())
+                p.len = p.len + 1
             elif isinstance(p, RecListP):
                 self.reclist_append(p, x)
             else:
@@ -452,6 +457,21 @@ class CallMixin:
                 iv = z3.If(iv < 0, z3.If(iv + p.len < 0, 0, iv + p.len), z3.If(iv > p.len, p.len, iv))
                 self.reclist_insert(recv, p, iv, x)
                 return NONE
+        if name == "pop" and isinstance(self.get_payload(recv.ref), StrSeqP) and len(args) <= 1:
+            p = self.payload.get(recv.ref) or self.mut_payload(recv.ref)
+            self.safe_or_raise(p.len > 0, "IndexError", node, fr, "call")
+            if not args:
+                p.len = p.len - 1
+                return p.elem(p.len)
+            iv = z3.simplify(self.as_int(args[0]))
+            if not (z3.is_int_value(iv) and iv.as_long() == 0):
+                raise Unsupported("pop(i) on a list of strings for i != 0")
+            first = p.elem(z3.IntVal(0))
+            j = fresh("j")
+            p.chars = z3.Lambda([j], z3.Select(p.chars, j + 1))
+            p.lens = z3.Lambda([j], z3.Select(p.lens, j + 1))
+            p.len = p.len - 1
+            return first
         if name == "pop" and not args:
             p = self.payload.get(recv.ref) or self.mut_payload(recv.ref)
             if isinstance(p, PyListP):
@@ -523,6 +543,12 @@ class CallMixin:
                 if name in ("strip", "rstrip"):
                     self.assume_axiom(z3.Implies(r.b > 0, z3.Not(pred(r.char(r.b - 1)))))
             return r
+        if name == "split" and len(args) == 1 and one(args[0]):
+            # the cells of s split at a one-character separator: a list of at least one string (their contents are not
+            # modelled beyond being strings of non-negative length)
+            ref = self.new_ref("split")
+            self.payload[ref] = self.fresh_strseq(ref, min_len=1)
+            return VList(ref)
         if name == "endswith" and isinstance(args[0], VStr) and args[0].kind == "lit":
             lit = args[0].a
             n = s.length()
